@@ -1069,4 +1069,201 @@ theorem run_eq_of_guarded {p : Pool} (v : Inv p) {ops : List Op} (g : Guarded p 
     · rw [runState_cons, runState_cons, e]; exact h1
     · simp only [runOut, e]; rw [h2]
 
+/-! ### vocabulary of the property statements -/
+
+/-- the call (re-)adds a transaction that owns hash `k` (its own hash or a sub-tx hash) -/
+def addsKey (k : Hash) : Op → Prop
+  | .add (some t) => k ∈ t.keys
+  | .adds ts => ∃ t, some t ∈ ts ∧ k ∈ t.keys
+  | _ => False
+
+/-- the call tells the pool to delete `t`: a `DelTxs` with a transaction that shares a hash with `t`
+    (`t` itself, a box containing `t`, or a sub-tx of the box `t`) -/
+def touches (t : Tx) : Op → Prop
+  | .del ds => ∃ d, some d ∈ ds ∧ ∃ k ∈ d.keys, k ∈ t.keys
+  | _ => False
+
+/-- the call is a scanning `GetTxs` at a time at which `t` is expired -/
+def expires (t : Tx) : Op → Prop
+  | .get time size => 0 < size ∧ isTxTimeOut t time = true
+  | _ => False
+
+def KeysDisjoint (a b : Tx) : Prop := ∀ k ∈ a.keys, k ∉ b.keys
+
+/-! ### per-call facts from an arbitrary state -/
+
+theorem get_pairwise {p : Pool} (v : Inv p) {time : Nat} {size : Int} {l : List Tx}
+    (h : (step true p (.get time size)).2 = .txs l) : l.Pairwise KeysDisjoint := by
+  rw [step_get] at h
+  by_cases hs : 0 < size
+  · obtain ⟨p', l', e, _, _, hsub, _⟩ := getTxs_spec true v.toWInv time hs
+    rw [e] at h; cases h
+    exact List.Pairwise.sublist hsub v.live_pairwise
+  · unfold getTxs at h
+    by_cases h0 : size < 0
+    · simp [h0] at h
+    · have : size = 0 := by omega
+      simp [this] at h; subst h; exact List.Pairwise.nil
+
+theorem get_sub_live (fixed : Bool) {p : Pool} (w : WInv p) {time : Nat} {size : Int} {l : List Tx}
+    (h : (step fixed p (.get time size)).2 = .txs l) :
+    l.Sublist (live p) ∧ ∀ t ∈ l, isTxTimeOut t time = false := by
+  rw [step_get] at h
+  by_cases hs : 0 < size
+  · obtain ⟨p', l', e, _, _, hsub, hto⟩ := getTxs_spec fixed w time hs
+    rw [e] at h; cases h
+    exact ⟨hsub, hto⟩
+  · unfold getTxs at h
+    by_cases h0 : size < 0
+    · simp [h0] at h
+    · have : size = 0 := by omega
+      simp [this] at h; subst h; exact ⟨List.nil_sublist _, by simp⟩
+
+theorem live_absent {p : Pool} (v : Inv p) {k : Hash} (hk : lookup p.idx k = none) :
+    ∀ t ∈ live p, k ∉ t.keys := by
+  intro t ht hkt
+  obtain ⟨i, hi⟩ := mem_live.mp ht
+  rw [v.slot_idx i t hi k hkt] at hk; cases hk
+
+theorem get_complete {p : Pool} (v : Inv p) {i : Nat} {t : Tx} (ht : p.txs[i]? = some (some t))
+    {time : Nat} {size : Int} (hto : isTxTimeOut t time = false) (hsz : (p.txs.length : Int) ≤ size)
+    {l : List Tx} (h : (step true p (.get time size)).2 = .txs l) : t ∈ l := by
+  have hi : i < p.txs.length := by
+    rcases Nat.lt_or_ge i p.txs.length with hlt | hge
+    · exact hlt
+    · rw [List.getElem?_eq_none hge] at ht; cases ht
+  have hs : 0 < size := by omega
+  rw [step_get] at h
+  obtain ⟨p', l', e, e2, _, _, _⟩ := getTxs_spec true v.toWInv time hs
+  rw [e] at h; cases h
+  have := getLoop_fixed_complete time size.toNat (List.range p.txs.length) v [] ht hto
+    (by simp; omega) (Or.inr (List.mem_range.mpr hi))
+  rw [e2] at this; exact this
+
+theorem step_absent (fixed : Bool) {p : Pool} (w : WInv p) {k : Hash} (hk : lookup p.idx k = none)
+    {op : Op} (hop : ¬ addsKey k op) : lookup (step fixed p op).1.idx k = none := by
+  cases op with
+  | add t =>
+    rw [step_add_fst]
+    exact addTx_absent t hk (fun tx e hkt => hop (by subst e; exact hkt))
+  | adds ts =>
+    rw [step_adds_fst]; split
+    · exact hk
+    · exact addLoop_absent 0 ts hk (fun tx e hkt => hop ⟨tx, e, hkt⟩)
+  | get time size =>
+    rw [step_get]
+    by_cases h : 0 < size
+    · obtain ⟨p', l, e, _, sh, _⟩ := getTxs_spec fixed w time h
+      rw [e]; exact sh.absent hk
+    · rw [getTxs_nonpos fixed p time h]; exact hk
+  | del ds =>
+    rw [step_del]
+    cases h : ds.isEmpty with
+    | true => rw [delTxs_empty fixed p h]; exact hk
+    | false =>
+      obtain ⟨p', _, e, sh⟩ := delTxs_spec fixed w h
+      rw [e]; exact gc_absent (sh.absent hk)
+  | isEmpty => exact hk
+
+theorem runState_absent (fixed : Bool) {p : Pool} (w : WInv p) {k : Hash} (hk : lookup p.idx k = none)
+    {ops : List Op} (hop : ∀ op ∈ ops, ¬ addsKey k op) : lookup (runState fixed p ops).idx k = none := by
+  induction ops generalizing p with
+  | nil => exact hk
+  | cons op r ih =>
+    rw [runState_cons]
+    exact ih (step_winv fixed w op) (step_absent fixed w hk (hop op (by simp))) (fun o ho => hop o (by simp [ho]))
+
+/-- after `DelTxs(ds)` (repaired) no hash of any listed transaction is indexed -/
+theorem del_absent {p : Pool} (w : WInv p) {ds : List (Option Tx)} {d : Tx} (hd : some d ∈ ds)
+    {k : Hash} (hk : k ∈ d.keys) : lookup (step true p (.del ds)).1.idx k = none := by
+  rw [step_del]
+  have hne : ds.isEmpty = false := by cases ds with | nil => simp at hd | cons _ _ => rfl
+  obtain ⟨p', e1, e, _⟩ := delTxs_spec true w hne
+  rw [e]
+  have := delLoop_fixed_absent w ds (Or.inl hd) hk
+  rw [e1] at this
+  exact gc_absent this
+
+theorem step_fixed_keeps {p : Pool} (v : Inv p) {i : Nat} {t : Tx} (ht : p.txs[i]? = some (some t))
+    {op : Op} (h1 : ¬ touches t op) (h2 : ¬ expires t op) : (step true p op).1.txs[i]? = some (some t) := by
+  cases op with
+  | add x => rw [step_add_fst]; exact addTx_live x ht
+  | adds ts =>
+    rw [step_adds_fst]; split
+    · exact ht
+    · exact addLoop_live 0 ts ht
+  | get time size =>
+    rw [step_get]
+    by_cases h : 0 < size
+    · obtain ⟨p', l, e, e2, _, _⟩ := getTxs_spec true v.toWInv time h
+      rw [e]
+      have hto : isTxTimeOut t time = false := by
+        cases hx : isTxTimeOut t time with
+        | false => rfl
+        | true => exact absurd ⟨h, hx⟩ h2
+      have := getLoop_fixed_keeps time size.toNat (List.range p.txs.length) v [] ht hto
+      rw [e2] at this; exact this
+    · rw [getTxs_nonpos true p time h]; exact ht
+  | del ds =>
+    rw [step_del]
+    cases h : ds.isEmpty with
+    | true => rw [delTxs_empty true p h]; exact ht
+    | false =>
+      obtain ⟨p', e1, e, _⟩ := delTxs_spec true v.toWInv h
+      rw [e]
+      have hk := delLoop_fixed_keeps v.toWInv ds ht (fun d hd k hkd hkt => h1 ⟨d, hd, k, hkd, hkt⟩)
+      have hv := delLoop_fixed_inv v ds
+      rw [e1] at hk hv
+      rw [gc_eq_of_lookup (hv.slot_idx i t hk t.hash (by simp [Tx.keys]))]
+      exact hk
+  | isEmpty => exact ht
+
+theorem runState_fixed_keeps {p : Pool} (v : Inv p) {i : Nat} {t : Tx} (ht : p.txs[i]? = some (some t))
+    {ops : List Op} (h : ∀ op ∈ ops, ¬ touches t op ∧ ¬ expires t op) :
+    (runState true p ops).txs[i]? = some (some t) := by
+  induction ops generalizing p with
+  | nil => exact ht
+  | cons op r ih =>
+    rw [runState_cons]
+    exact ih (step_fixed_inv v op) (step_fixed_keeps v ht (h op (by simp)).1 (h op (by simp)).2)
+      (fun o ho => h o (by simp [ho]))
+
+/-- `AddTxs` makes a listed transaction pending if none of its hashes is indexed yet and no other
+    listed transaction shares a hash with it -/
+theorem addLoop_accepts {p : Pool} (c : Nat) (ts : List (Option Tx)) {t : Tx} (ht : some t ∈ ts)
+    (hfree : ∀ k ∈ t.keys, lookup p.idx k = none)
+    (hdis : ∀ t', some t' ∈ ts → t' ≠ t → KeysDisjoint t t') : t ∈ live (addLoop p c ts).1 := by
+  induction ts generalizing p c with
+  | nil => simp at ht
+  | cons x r ih =>
+    by_cases hx : x = some t
+    · subst hx
+      have hok : (addTx p (some t)).2 = .ok := by
+        rcases addTx_cases p (some t) with ⟨_, _⟩ | ⟨tx, e, _, h, _⟩
+        · have he : isTxExist p t = false := by
+            unfold isTxExist
+            rw [List.any_eq_false]
+            intro k hk; simp [hfree k hk]
+          simp [addTx, he]
+        · exact h
+      have hl := addTx_ok_live hok
+      unfold addLoop
+      rw [mem_live]
+      refine ⟨p.txs.length, ?_⟩
+      split <;> rename_i he <;> rw [he] at hl <;> exact addLoop_live _ r hl
+    · have ht' : some t ∈ r := by
+        simp only [List.mem_cons] at ht
+        rcases ht with e | e
+        · exact absurd e.symm hx
+        · exact e
+      have hfree' : ∀ k ∈ t.keys, lookup (addTx p x).1.idx k = none := by
+        intro k hk
+        apply addTx_absent x (hfree k hk)
+        intro tx e hkt
+        have hne : tx ≠ t := fun e' => hx (by rw [e, e'])
+        exact hdis tx (by simp [e]) hne k hk hkt
+      unfold addLoop
+      split <;> rename_i he <;> rw [he] at hfree' <;>
+        exact ih _ ht' hfree' (fun t' h' => hdis t' (by simp [h']))
+
 end LemoProofs.PoolLemmas
